@@ -136,6 +136,7 @@ type FnCtx struct {
 	litText     map[*Term]string
 	oblNames    map[string]int
 	finalVals   map[string]envVar
+	calledNames map[string]bool // names used in called("...") expressions of this function's contract
 	defineDepth int
 	defInfos    map[string]*defineInfo
 	curCall     *ssa.CallCommon // the call being modelled by a library model
@@ -613,6 +614,12 @@ func (fc *FnCtx) closeLoop(li *loopInfo, st *State) {
 		for j, c := range spec.Invariants {
 			g := fc.transBool(env, c)
 			fc.oblige(st, "inv-pres", fmt.Sprintf("%s#inv-pres#L%d.%d", fc.fnName(), li.ordinal, j), g, c.Where, c.Text)
+		}
+		for j, c := range spec.Steps {
+			senv := fc.loopEnv(st, li)
+			senv.oldEnv = fc.loopEnv(li.headState, li)
+			g := fc.transBool(senv, c)
+			fc.oblige(st, "inv-pres", fmt.Sprintf("%s#step#L%d.%d", fc.fnName(), li.ordinal, j), g, c.Where, c.Text)
 		}
 		if spec.Frame {
 			fc.oblige(st, "inv-pres", fmt.Sprintf("%s#inv-pres#L%d.frame", fc.fnName(), li.ordinal), fc.loopFrame(li, st), spec.FrameWhere, "loop frame: objects allocated at entry keep their contents")
